@@ -184,8 +184,9 @@ Proof.
       + split; [reflexivity|]. constructor; [apply push_R; exact H|reflexivity].
       + split; [reflexivity|]. constructor; [exact H|cbn; congruence].
     - split; [reflexivity|]. constructor; [exact H|reflexivity].
+    - split; [reflexivity|]. constructor; [exact H|reflexivity].
     - split; [reflexivity|]. constructor; [exact H|reflexivity]. }
-  destruct o as [k d|k d|k d|h|h j|r]; cbn [a_step].
+  destruct o as [k d|k d|k d|h|h j| | |r]; cbn [a_step].
   - exact (Hsend k d).
   - specialize (Hsend k d). destruct k; exact Hsend.
   - (* refused write *)
@@ -202,6 +203,8 @@ Proof.
     cbn [sp_step]. unfold a_ack_refused, a_ack. pose proof (ack_refines (fst st) s h H) as Hk.
     destruct (q_ack (fst st) h) as [q' w]. destruct (sp_ack s h) as [s' w'].
     destruct Hk as (Hw & HR & Hon). split; [rewrite Hw; reflexivity|]. constructor; [exact HR|cbn [snd]; congruence].
+  - cbn [sp_step]. split; [reflexivity|exact HA].
+  - cbn [sp_step]. split; [reflexivity|exact HA].
   - (* a new session *)
     cbn [sp_step a_enabled]. split; [reflexivity|]. constructor; cbn [fst snd sp_on]; [|exact Ho].
     constructor; cbn; auto.
@@ -219,7 +222,7 @@ Qed.
 (* acks are never held, through Send (value or pointer) or SendRaw *)
 Lemma acks_not_held st k d : k <> KStanza ->
   fst (a_step st (ASend k d)) = st /\ fst (a_step st (ASendRaw k d)) = st.
-Proof. destruct k; [contradiction| |]; split; reflexivity. Qed.
+Proof. destruct k; [contradiction| | |]; split; reflexivity. Qed.
 
 Lemma exec_RA ops : forall st s, RA st s -> RA (a_exec st ops) (sp_exec s ops).
 Proof.
@@ -305,7 +308,7 @@ Lemma sp_step_fields s o : is_enabled o = false ->
     | None => sp_acked s
     end.
 Proof.
-  intros He. destruct o as [k d|k d|k d|h|h j|r]; try discriminate; cbn [sp_step first_tx ack_h].
+  intros He. destruct o as [k d|k d|k d|h|h j| | |r]; try discriminate; cbn [sp_step first_tx ack_h].
   - destruct k; [destruct (sp_on s) eqn:On; cbn; rewrite ?app_nil_r; auto|..];
       cbn; destruct (sp_on s); rewrite app_nil_r; auto.
   - destruct k; [destruct (sp_on s) eqn:On; cbn; rewrite ?app_nil_r; auto|..];
@@ -315,6 +318,8 @@ Proof.
     destruct (sp_on s); rewrite app_nil_r; auto.
   - pose proof (sp_ack_fields s h) as (H1 & H2 & H3). destruct (sp_ack s h) as [s' w]. cbn [fst] in *.
     rewrite H1, H2, H3. destruct (sp_on s); rewrite app_nil_r; auto.
+  - cbn. destruct (sp_on s); rewrite app_nil_r; auto.
+  - cbn. destruct (sp_on s); rewrite app_nil_r; auto.
 Qed.
 
 (* on one session the list of stanzas sent only grows, and stanza number m (already sent) is still
@@ -353,7 +358,7 @@ Proof. unfold sp_exec. apply fold_left_app. Qed.
    carried h >= n, and nothing else is ever queued under n *)
 Lemma step_flag st o : snd (fst (a_step st o)) = snd st.
 Proof.
-  destruct st as [q b]. destruct o as [[]|[]|[]|h|h j|r]; cbn; try reflexivity; try (destruct b; reflexivity).
+  destruct st as [q b]. destruct o as [[]|[]|[]|h|h j| | |r]; cbn; try reflexivity; try (destruct b; reflexivity).
   - unfold a_ack. cbn. destruct (q_ack q h); reflexivity.
   - unfold a_ack_refused, a_ack. cbn. destruct (q_ack q h); reflexivity.
 Qed.
@@ -384,10 +389,10 @@ Proof.
   set (m := S (length (sp_sent s0))).
   assert (Hm1 : (1 <= m)%nat) by (unfold m; lia).
   (* the specification after o *)
-  assert (He : is_enabled o = false) by (destruct o as [[]|[]| | | |]; try discriminate; reflexivity).
+  assert (He : is_enabled o = false) by (destruct o as [[]|[]| | | | | |]; try discriminate; reflexivity).
   pose proof (sp_step_fields s0 o He) as (Ho1 & Hsent1 & Hack1). rewrite <- Ho0, Hd in Hsent1.
   assert (Hack1' : sp_acked (fst (sp_step s0 o)) = sp_acked s0).
-  { rewrite Hack1. destruct o as [[]|[]| | | |]; try discriminate; reflexivity. }
+  { rewrite Hack1. destruct o as [[]|[]| | | | | |]; try discriminate; reflexivity. }
   set (s1 := fst (sp_step s0 o)) in *.
   assert (Hm : (1 <= m <= length (sp_sent s1))%nat) by (rewrite Hsent1, app_length; cbn; unfold m; lia).
   pose proof (same_session_exec post s1 m Hs Hm) as (I1 & I2 & I3). cbn zeta in I1, I2, I3.
